@@ -13,7 +13,8 @@ EXPLANATION = (
     "through the same letter-folding index function.  (R4) one kind per base name: inserting a "
     "compact variable into a constant/extended entry is an error path and constants are inserted only "
     "after the clash check.  (R5) the current scope is consulted before the global scope in every "
-    "two-level lookup (local shadows global).")
+    "two-level lookup (local shadows global); (R6) and the global scope is consulted exactly when that "
+    "same lookup missed locally - no other predicate decides the fallback.")
 NOT_DECIDED = ["the resolution outcome for arbitrary combinations of declarations (run of the converter)"]
 
 NAMES = "Names"
@@ -227,6 +228,51 @@ def r5_local_before_global(ctx, rule="C13.R5"):
     ctx.require(rule, 5)
 
 
+def r6_fallback_keyed_on_same_lookup(ctx, rule="C13.R6"):
+    """The global scope is consulted exactly when the *same* lookup missed in the current scope:
+    `names().M(..).or_else(|| global_names()...M(..))`."""
+    prog = ctx.prog
+    n = 0
+    for fn in sorted(_names_methods(prog), key=lambda f: f.id):
+        cl = prog.closures_of(fn)
+        names_called = {mir.callee_path(t).split("::")[-1] for g in [fn] + cl for _b, t in g.body.calls()}
+        if "global_names" not in names_called or fn.name == "global_names":
+            continue
+        if not (names_called & {"get_compact", "get_extended", "get_const_value"}):
+            continue    # merging lookups (collect_var_info) are covered by R2
+        n += 1
+        pv = mir.Prov(fn.body)
+        ok = False
+        detail = ""
+        for b, t in fn.body.calls():
+            if not (t.get("cpath") or "").endswith("Option::<T>::or_else"):
+                continue
+            recv = mir.strip_refs(pv.of_operand(t["args"][0]))
+            if recv[0] != "call" or not recv[2]:
+                continue
+            m = recv[1].split("::")[-1]
+            base = mir.strip_refs(recv[2][0])
+            local_first = base[0] == "call" and base[1].split("::")[-1] == "names"
+            clo = mir.strip_refs(pv.of_operand(t["args"][1]))
+            cid = clo[2] if clo[0] == "agg" and clo[1] == "closure" else None
+            cfn = prog.fns.get(cid) if cid else None
+            inner = set()
+            if cfn is not None:
+                for g in [cfn] + prog.closures_of(cfn):
+                    for _b2, t2 in g.body.calls():
+                        inner.add(mir.callee_path(t2).split("::")[-1])
+            if local_first and "global_names" in inner and m in inner:
+                # nothing else decides: the or_else call is reached on every path from entry
+                ok = all(fn.body.every_path_passes(0, fn.body.exits(), {b}) for _ in [0])
+                detail = m
+        ctx.decide(ok, rule, "%s:%s" % (rule, fn.name), fn.loc,
+                   "names().%s(..).or_else(global %s)" % (detail, detail),
+                   "%s does not fall back to the global scope exactly when its own lookup misses locally "
+                   "(another test decides, or the fallback uses a different lookup): a SHARED / global "
+                   "entry is hidden by an unrelated local name" % fn.name)
+    ctx.require(rule, 4)
+
+
 def run(ctx):
     common.install(ctx)
     from . import c09
@@ -236,3 +282,4 @@ def run(ctx):
     r3_default_types(ctx)
     r4_one_kind_per_name(ctx)
     r5_local_before_global(ctx)
+    r6_fallback_keyed_on_same_lookup(ctx)
